@@ -67,7 +67,7 @@ func main() {
 		Post: func(c *ev.Check, outs []*run.Outcome) {
 			for k, min := range map[string]int64{
 				"wire.datagrams": 100, "wire.slots_with_acted_datagram": 50, "wire.restarts": 5, "wire.dup_new_slot_one_report": 3, "wire.versions_with_conflict": 10,
-				"wire.probe_congruent": 1, "history.checks": 50, "history.cells_checked": 100, "history.conflicting_rewrite_kept_first": 3,
+				"wire.probe_congruent": 1, "wire.probe_row_patterns": 1, "store.save_accepted_below_2^21": 100, "store.round_distance_ops": 10, "history.checks": 50, "history.cells_checked": 100, "history.conflicting_rewrite_kept_first": 3,
 				"store.save_accepted": 100, "store.save_refused_occupied": 100, "store.save_refused_before_origin": 10, "store.save_noop_equal": 20, "store.zero_on_empty": 10,
 				"store.load": 100, "store.far_saves": 10, "store.wrap_zone_ops": 10, "store.full_checks": 5, "store.restarts": 1, "store.origin_minus_one": 1,
 				"conc.loads_on_stored": 10000, "conc.goroutines": 8, "conc.saves_accepted": 100, "conc.saves_refused_occupied": 1000,
@@ -76,8 +76,8 @@ func main() {
 			} {
 				c.Require(k, min)
 			}
-			if n := c.Counter("store.save_unexpected_error"); n > 0 {
-				c.Inconc(fmt.Sprintf("%d saves to an empty in-range cell returned an error (environment?)", n))
+			if n := c.Counter("store.save_refused_below_2^21"); n > 0 {
+				c.Inconc(fmt.Sprintf("%d saves to an empty cell less than 2^21 slots past the origin were refused (wholesale refusal or environment?)", n))
 			}
 		},
 	})
@@ -473,6 +473,12 @@ func (s *scen) edit() string {
 		a := line{slot: s.nextSlot, off: int64(rng.Intn(300)), val: v}
 		b := line{slot: s.nextSlot, off: int64(rng.Intn(300)), val: w}
 		s.nextSlot++
+		if v != w && rng.Intn(3) == 0 {
+			// adjacent rows of one new slot: a refused value followed by its exact copy
+			pat := [][]line{{a, b, b}, {a, b, b, a}, {a, a, b, b}, {a, b, b, b}}[rng.Intn(4)]
+			s.lines = append(s.lines, pat...)
+			return fmt.Sprintf("append new slot %d with row pattern %d (A,B,B ...)", a.slot, len(pat))
+		}
 		s.lines = append(s.lines, a)
 		if rng.Intn(2) == 0 {
 			s.lines = append(s.lines, line{slot: s.nextSlot, off: int64(rng.Intn(300)), val: s.cval()})
@@ -629,6 +635,33 @@ func (s *scen) runProbe(kind string) {
 	case "congruent-across-reads":
 		// the same class, but the second value arrives in a later version: nothing may be re-sent
 		a, b = "5000", ""
+	case "row-patterns":
+		// one pass sees, for one new slot each, A,B,B / A,B,B,A / A,A,B,B
+		s.r.Count("wire.probe_row_patterns", 1)
+		for i, pat := range []string{"ABB", "ABBA", "AABB"} {
+			va := fmt.Sprint(500 + rng.Intn(100))
+			vb := fmt.Sprint(700 + rng.Intn(100))
+			for _, ch := range pat {
+				v := va
+				if ch == 'B' {
+					v = vb
+				}
+				s.lines = append(s.lines, line{slot: sl + int64(i), off: 9, val: v})
+			}
+		}
+		s.lines = append(s.lines, line{slot: sl + 3, off: 0, val: "250"})
+		if !s.publish("probe "+kind) || !s.settle() {
+			return
+		}
+		// restart with the newest row rewritten and duplicated
+		s.stop()
+		s.r.Count("wire.restarts", 1)
+		s.lines[len(s.lines)-1].val = "260"
+		s.lines = append(s.lines, s.lines[len(s.lines)-1], line{slot: sl + 4, off: 0, val: "270"})
+		if !s.publish("while down: newest row rewritten and duplicated, one new slot") || !s.start() || !s.settle() {
+			return
+		}
+		return
 	}
 	s.lines = append(s.lines, line{slot: sl, off: 1, val: a})
 	if b != "" {
@@ -790,7 +823,7 @@ func wireChild(b run.Batch, r *ev.Result) {
 		return
 	}
 	defer rogue.Close()
-	kinds := []string{"congruent", "zeroalias", "congruent-across-reads"}
+	kinds := []string{"congruent", "zeroalias", "congruent-across-reads", "row-patterns"}
 	for i := 0; i < n+len(kinds) && r.NumViolations() < 30; i++ {
 		kind := "random"
 		if i < len(kinds) {
@@ -1046,6 +1079,12 @@ func (st *store) pickSlot() (uint32, string) {
 		}
 		return uint32(v)
 	}
+	if st.far && rng.Intn(5) == 0 {
+		// "round" distances past the origin, where a capacity limit could sit
+		d := []int64{20 * 365 * 288, 20 * 365 * 288, 1 << 20, 1 << 21, 1 << 22, 365 * 288 * int64(1+rng.Intn(40)), 10 * 365 * 288, 1 << 24}[rng.Intn(8)]
+		st.r.Count("store.round_distance_ops", 1)
+		return clamp(o + d + []int64{-2, -1, 0, 0, 1, 2}[rng.Intn(6)]), "round distance past origin"
+	}
 	if st.far {
 		switch k := rng.Intn(100); {
 		case k < 12:
@@ -1232,10 +1271,18 @@ func (st *store) run(n int) {
 				r.Count("store.save_refused_occupied", 1)
 			}
 		default:
+			near := int64(ts)-int64(st.origin) < 1<<21
 			if err != nil {
-				r.Count("store.save_unexpected_error", 1)
-				r.Note("%s on an empty cell failed: %v", op, err)
+				// a refused save is an allowed outcome: nothing is stored (checked below), nothing may be sent
+				r.Count("store.save_refused", 1)
+				if near {
+					r.Count("store.save_refused_below_2^21", 1)
+					r.Note("%s on an empty cell failed: %v", op, err)
+				}
 			} else {
+				if near {
+					r.Count("store.save_accepted_below_2^21", 1)
+				}
 				st.model[ts] = v
 				r.Count("store.save_accepted", 1)
 				if ts > st.maxTS {
